@@ -427,7 +427,10 @@ def run_case(case):
     try:
         got = np.asarray(c.unitary())
         d = float(np.abs(got - U).max())
-        if d > TOL:
+        # the prescription is built from the case's recorded parameters (rounded to ~1e-10 in the replayable spec): the
+        # admissible deviation of a PRODUCT grows with the number of factors (observed 2.5e-9 on 30 gates in the thorough
+        # tier); a wrong operator is off by 1e-2 or more
+        if d > TOL * max(1, len(flat_real)):
             problems.append(("operator", "", f"Circuit.unitary() of {chain(case['expr'])} differs from the prescribed operator (max diff {d:.3g})"))
     except Exception as ex:  # noqa: BLE001
         problems.append(("raises", type(ex).__name__, f"unitary() of {chain(case['expr'])} raises {type(ex).__name__}: {ex}"))
